@@ -34,12 +34,47 @@ Definition mk_reader (tail : bytes) (hs : list bytes) : reader :=
   mkReader (filter (fun c => negb (beq c [])) (map unhex hs))
            (if beq tail (b "err") then TFail 0 else TEof).
 
+(* a reader with transient failures: the chunk list is cut at the markers "!"; at each marker one
+   read fails (ErrIo) and the stream then goes on *)
+Fixpoint split_parts (hs : list bytes) (cur : list bytes) : list (list bytes) :=
+  match hs with
+  | [] => [rev cur]
+  | h :: r => if beq h [33] then rev cur :: split_parts r []
+              else split_parts r (if beq h [] then cur else unhex h :: cur)
+  end.
+
+Fixpoint run_seq (fuel extra : nat) (c : conn) (cur : list bytes) (rest : list (list bytes)) (t : tail_kind) : list outcome :=
+  match fuel with
+  | O => []
+  | S f =>
+    match rest with
+    | [] => run (S f) extra c (mkReader cur t)
+    | nxt :: rest' =>
+      match receive c (mkReader cur (TFail 0)) with
+      | (Resp x, c', r') => Resp x :: run_seq f extra c' (chunks r') rest t
+      | (ErrIo k, c', r') => ErrIo k :: run_seq f extra c' (chunks r' ++ nxt) rest' t
+      | (o, c', r') => o :: match extra with O => [] | S e => run_seq f e c' (chunks r') rest t end
+      end
+    end
+  end.
+
 Definition run_conn (kind : bytes) (args : list bytes) : bytes :=
   match args with
   | flavour :: extra :: tail :: hs =>
     let r := mk_reader tail hs in
     let fuel := S (S (reader_bytes r)) in
     if beq kind (b "recv") then
+      if existsb (fun h => beq h [33]) hs then
+        match split_parts hs [] with
+        | first :: rest =>
+          let parts := map (filter (fun c => negb (beq c []))) (first :: rest) in
+          let total := length (concat (concat parts)) in
+          join (b " | ") (map show_outcome
+            (run_seq (S (S total) + length parts + read_nat extra) (read_nat extra) (mkConn (policy0 flavour) [] Initial)
+                     (hd [] parts) (tl parts) (if beq tail (b "err") then TFail 0 else TEof)))
+        | [] => b "bad-case"
+        end
+      else
       join (b " | ") (map show_outcome (run (fuel + read_nat extra) (read_nat extra) (mkConn (policy0 flavour) [] Initial) r))
     else
       match connect (policy0 flavour) r with
